@@ -199,6 +199,22 @@ CLAIMED["C20"] = dict(
     technique="CBMC contract harnesses on real add/solve histories (count invariant, EDOM, unchanged object, no leak)",
 )
 
+CLAIMED["C18"] = dict(
+    level="proof",
+    text="NARROW (deterministic clauses only).  On real vnacal_new_t histories (2x2; UE14 and T8 quick, all six "
+         "system-solving types thorough): (a) vnacal_new_set_m_error with both vectors NULL disables the model "
+         "(vector freed, no V matrices allocated: unweighted path); (b) the weight vector entry of the g-th "
+         "equation, in the order the solvers enumerate equations across ALL systems, is 1/sqrt(nf^2 + tr^2|m_g|^2) "
+         "computed from that equation's own measured cell (pairwise distinct measurements decide the indexing; "
+         "sqrt by an identity stand-in); (c) _vnacal_new_solve_simple weights every coefficient and right-hand "
+         "side of an equation with that equation's own weight (marker weights, recording kernel). Noise vectors on "
+         "their own grid pass through the given points: C10.",
+    note="rejection rates, exact-data equivalence, outliers (statistics) are outside contract verification; "
+         "solve_auto's use of the weights is not checked; concrete small histories",
+    design="DESIGN.md 3 C18, 8.17",
+    technique="CBMC contract harnesses on the real weight computation / assembly with marker and recording contracts",
+)
+
 NA = {
     "C02": "iterative floating-point convergence (Levenberg-Marquardt / TRL) has no contract CBMC can discharge; see DESIGN.md 3 C02",
     "C06": "property is about bytes written by fprintf and read by an independent reader; no CBMC model of formatted I/O (a stub would be the oracle); DESIGN.md 3 C06",
@@ -208,7 +224,6 @@ NA = {
 }
 
 NOT_YET = {
-    "C18": "not built: the decidable clauses (weights indexing, NULL-vectors reset, T16 full-S refusal) need a well-formed vnacal_new_t measurement/equation graph constructor that was not written; statistical clauses are outside contract verification (DESIGN 8.12)",
     "C19": "backward stability is a floating-point statement outside contract verification; the planned structural claims on _vnacommon_lu (row scaling, pivot rule, zero pivot) were not built (DESIGN 8.12)",
 }
 for k in CLAIMED:
